@@ -22,6 +22,11 @@ func init() {
 
 func runC01(c *Ctx) {
 	p := c.P
+	// clauses this property shares with others (see DESIGN.md section 6a)
+	defer c.ImportRules("C08", "C08.1", "C08.3")
+	defer c.ImportRules("C09", "C09.1")
+	defer c.ImportRules("C10", "C10.1")
+	defer c.ImportRules("C07", "C07.6")
 
 	// ---------------------------------------------------------------- C01.1
 	c.Rule("C01.1", "end-of-message of the per-message source is never returned as io.EOF together with data", 3)
@@ -582,6 +587,50 @@ func runC01(c *Ctx) {
 		if n == 0 {
 			c.Bad("C01.5", FuncName(fn), "compression-side", fn.Pos(), "no call through a compression pool found: shape changed")
 		}
+	}
+
+	// ---------------------------------------------------------------- C01.6
+	// A message declared compressed must be a stream of that compression, also when it is empty
+	// (a zero-length payload under 'compressed' is not a valid gzip/zstd stream): the compress
+	// helper may succeed without calling the pool only when there is no pool.
+	c.Rule("C01.6", "the compress stage helper succeeds without compressing only when no compression is configured", 1)
+	{
+		fn := helper["compress"]
+		paths, ok := EnumPaths(fn.Blocks[0], nil, IsReturn, 0)
+		if !ok {
+			c.Unknown("C01.6", FuncName(fn), "paths", fn.Pos(), "too many paths")
+		}
+		bad, nOK := 0, 0
+		for _, cp := range paths {
+			ret := cp.End.(*ssa.Return)
+			if !IsNilConst(cp.Deref(ret.Results[0])) {
+				continue
+			}
+			nOK++
+			compressed, noPool := false, false
+			for _, b := range cp.Blocks {
+				for _, in := range b.Instrs {
+					if ci, isC := in.(ssa.CallInstruction); isC {
+						if sc := ci.Common().StaticCallee(); sc != nil && sc.Signature.Recv() != nil && isPtrTo(sc.Signature.Recv().Type(), RootPath, "compressionPool") && N(sc) != "Name" {
+							compressed = true
+						}
+					}
+				}
+			}
+			for cond, truth := range cp.Truth {
+				if b, isB := cond.(*ssa.BinOp); isB && isPtrTo(b.X.Type(), RootPath, "compressionPool") && IsNilConst(b.Y) {
+					if b.Op == token.EQL && truth || b.Op == token.NEQ && !truth {
+						noPool = true
+					}
+				}
+			}
+			if !compressed && !noPool {
+				bad++
+			}
+		}
+		c.Check(bad == 0 && nOK > 0, "C01.6", FuncName(fn), "no-op-only-without-pool", fn.Pos(),
+			"every successful return either compressed the buffer or knows that no compression is configured ("+itoa(nOK)+" success paths)",
+			itoa(bad)+" success path(s) skip the compression although a compression is configured: the message is sent uncompressed (or empty) under an envelope flag / Content-Encoding that says compressed")
 	}
 
 	// ---------------------------------------------------------------- C01.3
